@@ -68,6 +68,7 @@ pub fn dispatch(kind: &str, req: &Value, _scratch: &Path) -> Res<Value> {
                 Err(e) => json!({"stage":"done","err": e.to_string()}),
             })
         }
+        "filter_codec" | "b64_decode" | "b64_encode" | "regex_ok" => crate::ops_c18::dispatch(kind, req).unwrap_or_else(|| Err("c18".into())),
         _ => Err(format!("unknown kind {kind}").into()),
     }
 }
